@@ -172,31 +172,47 @@ impl<'b, 'tx> Iterator for Cursor<'b, 'tx> {
     fn next(&mut self) -> Option<Self::Item> {
         if self.stack.is_empty() {
             self.seek_first();
-        } else if self.next_called {
-            loop {
-                {
-                    let b = self.bucket.borrow();
-                    if b.deleted {
-                        panic!("Cannot get data from a deleted bucket.");
-                    }
-                    let elem = self.stack.last_mut().unwrap();
-                    let page_node = b.page_node(elem.id);
-                    if elem.index >= (page_node.len() - 1) {
-                        if self.stack.len() == 1 {
-                            return None;
-                        }
-                        self.stack.pop();
-                        continue;
-                    } else {
-                        elem.index += 1;
-                    }
-                }
-                self.seek_first();
-                break;
-            }
+        } else if self.next_called && !self.advance() {
+            return None;
         }
         self.next_called = true;
-        self.current()
+        // A leaf can be empty inside a write transaction (every key deleted, not yet merged),
+        // so keep advancing until there is data under the cursor or nothing is left.
+        loop {
+            if let Some(data) = self.current() {
+                return Some(data);
+            }
+            if !self.advance() {
+                return None;
+            }
+        }
+    }
+}
+
+impl<'b, 'tx> Cursor<'b, 'tx> {
+    // Moves the cursor to the next element, returns false if there is none.
+    fn advance(&mut self) -> bool {
+        loop {
+            {
+                let b = self.bucket.borrow();
+                if b.deleted {
+                    panic!("Cannot get data from a deleted bucket.");
+                }
+                let elem = self.stack.last_mut().unwrap();
+                let page_node = b.page_node(elem.id);
+                if elem.index + 1 >= page_node.len() {
+                    if self.stack.len() == 1 {
+                        return false;
+                    }
+                    self.stack.pop();
+                    continue;
+                } else {
+                    elem.index += 1;
+                }
+            }
+            self.seek_first();
+            return true;
+        }
     }
 }
 
